@@ -192,6 +192,7 @@ func c06cases(env *core.Env) []c06case {
 	for i := range c06faultCases() {
 		cs = append(cs, c06case{Part: "crossfault", Rep: i})
 	}
+	cs = append(cs, c06case{Part: "oslink"})
 	for i := 0; i < env.Pick(300, 4000); i++ {
 		cs = append(cs, c06case{Part: "concurrent", Rep: i})
 	}
@@ -229,6 +230,8 @@ func c06run(env *core.Env, idx int) core.CaseResult {
 		c06addmount(env, cs, idx, &res)
 	case "crossfault":
 		c06crossfault(env, cs, idx, &res)
+	case "oslink":
+		c06oslink(env, &res)
 	default:
 		c06concurrent(env, cs, idx, &res)
 	}
@@ -554,6 +557,8 @@ func c06concurrent(env *core.Env, cs c06case, idx int, res *core.CaseResult) {
 		go func(i int) {
 			defer wg.Done()
 			f, _ := mem.NewFS()
+			// every caller brings its own file system, recognisable by a file only it holds
+			_ = hackpadfs.WriteFullFile(f, fmt.Sprintf("brought-by-%d", i), []byte("x"), 0o644)
 			<-start
 			target := point
 			if i == k-1 && k > 3 {
@@ -600,6 +605,23 @@ func c06concurrent(env *core.Env, cs c06case, idx int, res *core.CaseResult) {
 	}
 	if mounted != 1 {
 		res.Violate("C06|AddMount|concurrent|table", fmt.Sprintf("mount table lists %q %d times", point, mounted), cs)
+	}
+	// the point routes to the file system of the caller that was told it had succeeded, not to a loser's
+	if okSame == 1 {
+		for i, e := range errs {
+			if i == k-1 && k > 3 {
+				continue
+			}
+			_, serr := hackpadfs.Stat(m, fmt.Sprintf("%s/brought-by-%d", point, i))
+			if (e == nil) != (serr == nil) {
+				who := "the winner's"
+				if e != nil {
+					who = "a loser's"
+				}
+				res.Violate("C06|AddMount|concurrent|routes-to-wrong-fs", fmt.Sprintf("after %d concurrent AddMount(%q) calls, looking below the point finds %s file system: caller %d got %v from AddMount, Stat of its marker file says %v", k, point, who, i, e, serr), cs)
+				break
+			}
+		}
 	}
 	res.Nontrivial = true
 	res.Count("concurrent_addmount_groups", 1)
